@@ -66,8 +66,9 @@ Definition E_AI_PATTERN := 16.
 Definition E_DIFF := 17.
 Definition E_READ := 18.
 Definition E_FLAGS := 19.
-(* a message the harness cannot classify (reworded, or new): the properties never pin the wording of
-   an error, so an unclassified error agrees with any predicted error *)
+(* a message the harness cannot classify (reworded, or new).  The properties never pin the wording
+   or the kind of an error - only that the run fails - so ANY observed error agrees with any
+   predicted error; the classes are kept in the evidence for the reader *)
 Definition E_UNKNOWN := 98.
 Definition E_ORACLE_MISS := 99.   (* the case file lacks an oracle entry: harness bug, never a verdict *)
 
